@@ -333,16 +333,22 @@ pub fn ascii_sweep(ctx: &Ctx, mode: &Mode, cfg: &TokCfg, witnesses: &[Vec<u16>],
 pub fn simd_windows(ctx: &Ctx, mode: &Mode, stats: &Stats, maxlen: usize) -> u64 {
     let specials = ["\n", "\r", "\r\n", "<", "&", "\0", "\u{e9}", "&amp;", "<b>"];
     let cfg = TokCfg::default();
-    let lens: Vec<usize> = (15..=maxlen).collect();
+    // filler characters: plain ASCII, a line break (every newline of a block is counted), and
+    // multi-byte characters that straddle the 16-byte stride at every offset
+    let fillers: &[char] = if maxlen > 40 { &['x', '\n', '\u{e9}', '\u{20ac}', '\u{1f600}', '\r'] } else { &['x', '\n', '\u{e9}'] };
+    let lens: Vec<(usize, char)> = fillers.iter().flat_map(|&f| (if f == 'x' { 15 } else { 14 }..=if f == 'x' { maxlen } else { maxlen.min(36) }).map(move |l| (l, f))).collect();
     let total = AtomicU64::new(0);
-    lens.par_iter().for_each(|&len| {
+    lens.par_iter().for_each(|&(len, filler)| {
         let mut n = 0u64;
         let mut local = BTreeSet::new();
         // one special at position i, optionally a second at position j >= i
         for (ai, a) in specials.iter().enumerate() {
             for i in 0..=len {
                 for (bi, b) in specials.iter().enumerate() {
-                    let js: Vec<usize> = if ai == 0 && bi == 0 { (i..=len).collect() } else if bi < 4 { (i..=len).step_by(1).collect() } else { vec![i, len] };
+                    if filler != 'x' && (ai >= 6 || bi >= 6) {
+                        continue;
+                    }
+                    let js: Vec<usize> = if bi < 4 { (i..=len).collect() } else { vec![i, len] };
                     for j in js {
                         // string of `len` x's with a inserted before x #i and b before x #j
                         let mut s = String::with_capacity(len + 12);
@@ -354,7 +360,7 @@ pub fn simd_windows(ctx: &Ctx, mode: &Mode, stats: &Stats, maxlen: usize) -> u64
                                 s.push_str(b);
                             }
                             if k < len {
-                                s.push('x');
+                                s.push(filler);
                             }
                         }
                         let sched = vec![Feed::Chunk(s.clone())];
